@@ -1,6 +1,5 @@
 package main
 
-<<<<<<< HEAD
 import (
 	"fmt"
 	"math"
@@ -221,9 +220,6 @@ func negZeroAliasProbe(c *Ctx) {
 		})
 	}
 }
-=======
-import "strings"
->>>>>>> origin/main
 
 func runC01(c *Ctx) {
 	r := c.R
@@ -254,11 +250,9 @@ func runC01(c *Ctx) {
 		tieDiff[vr] = true
 		r.Mismatch("spec", vr.Case.Src+" ["+vr.Case.Mode.String()+"] env="+valSx(envVal(vr.Case)).String()+" tree="+vr.Case.B.TreeSx, spec, real)
 	})
-<<<<<<< HEAD
 	negZeroAliasProbe(c)
 	// end to end through ALL model stages: source text -> lexer, parser, compiler, VM models vs expr.Eval
 	EvalSourceCorrespondence(c, cases, 1000)
-=======
 	// the property oracle: the language definition itself (left-to-right evaluation, unsigned range sizes)
 	SpecCorrespondence(c, res, 1000, false, false, func(vr *VMResult, spec, real string) {
 		key := "c01:differs-from-language-definition"
@@ -270,7 +264,6 @@ func runC01(c *Ctx) {
 			Key: key, Input: map[string]string{"expr": vr.Case.Src, "mode": vr.Case.Mode.String(), "env": valSx(envVal(vr.Case)).String(), "tree": vr.Case.B.TreeSx},
 			Expect: spec, Got: real})
 	})
->>>>>>> origin/main
 }
 
 func init() { props["C01"] = runC01 }
